@@ -125,6 +125,7 @@ func runC17Mono(c *Ctx) {
 func runC17Arg(c *Ctx) {
 	p := c.P
 	info := p.info()
+	runC17ArgLast(c)
 	for name, d := range globDecls(p) {
 		occ := 0
 		var stack []ast.Node
